@@ -3,8 +3,9 @@
 
 `refName` mirrors `contextRefName` / `pathToPackage` / `declaresName` of
 `/repo/internal/j5s/protoprint/protoprint.go` (after the fixes b1156d6: the last path element is
-never stripped, and the shadowing fix: a name that an enclosing scope would capture is printed fully
-qualified with a leading dot).
+never stripped, and the two shadowing fixes: a name that an enclosing scope — or, for a type of
+another package, the own package or one of its parents — would capture is printed fully qualified
+with a leading dot).
 
 `resolve` is the reader side: protobuf's relative-name resolution (innermost scope outward, the
 first component decides, C++ style) over a symbol table, written from the language
@@ -85,9 +86,23 @@ def declares (t : Tab) (scope : Path) (first : String) : Bool := (t.find (scope 
 def innerScopes (pkg ctx : Path) (k : Nat) : List Path :=
   ((takesDown ctx ctx.length).take (ctx.length - k)).map (pkg ++ ·)
 
+/-- every scope a relative name is looked up in before the root namespace: the enclosing
+messages (or the service), then the package of the file and its parent packages
+(`capturedBeforeRoot`: the `Parent()` chain, then `visibleFrom` per package prefix) -/
+def scopesBelowRoot (pkg scope : Path) : List Path :=
+  (takesDown scope scope.length).map (pkg ++ ·) ++ takesDown pkg pkg.length
+
 /-- `contextRefName` -/
 def refName (t : Tab) (ctxPkg ctx tgtPkg tgt : Path) : Name :=
-  if ctxPkg ≠ tgtPkg then ⟨false, tgtPkg ++ tgt⟩
+  if ctxPkg ≠ tgtPkg then
+    -- another package: the full name, with a leading dot when a scope below the root declares
+    -- its first component (fix: cross-package shadowing)
+    match tgtPkg ++ tgt with
+    | [] => ⟨false, []⟩
+    | first :: rest =>
+      if (scopesBelowRoot ctxPkg ctx).any (fun pre => declares t pre first)
+      then ⟨true, first :: rest⟩
+      else ⟨false, first :: rest⟩
   else
     match stripCommon tgt ctx with
     | [] => ⟨false, []⟩
@@ -152,7 +167,7 @@ def resolveName (t : Tab) (pkg scope : Path) (onlyTypes : Bool) (n : Name) : Opt
     | none => none
   else resolve t pkg scope onlyTypes n.parts
 
-/-! ## the hypothesis that excludes shadowing (needed across packages only) -/
+/-! ## capture, home scope, well-formed symbol tables -/
 
 /-- a declaration at `pre.first` stops the search there -/
 def captures (t : Tab) (onlyTypes : Bool) (pre : Path) (first : String) (qualified : Bool) : Bool :=
@@ -164,14 +179,6 @@ def captures (t : Tab) (onlyTypes : Bool) (pre : Path) (first : String) (qualifi
 def home (ctxPkg ctx tgtPkg tgt : Path) : Path :=
   if ctxPkg ≠ tgtPkg then []
   else ctxPkg ++ tgt.take (tgt.length - (stripCommon tgt ctx).length)
-
-/-- No scope that is searched before `home` declares the first component of the printed name. -/
-def NoShadow (t : Tab) (onlyTypes : Bool) (ctxPkg ctx tgtPkg tgt : Path) : Bool :=
-  match shortName ctxPkg ctx tgtPkg tgt with
-  | [] => true
-  | first :: rest =>
-    ((scopes ctxPkg ctx).takeWhile (· ≠ home ctxPkg ctx tgtPkg tgt)).all
-      (fun pre => !captures t onlyTypes pre first (rest ≠ []))
 
 /-- The target is declared (with all its ancestors) and its package is known. -/
 def SymtabWF (t : Tab) (onlyTypes : Bool) (tgtPkg tgt : Path) : Prop :=
